@@ -52,13 +52,20 @@ if SK:
     LINE_COMMENT_T = PT.Comment.Single
     BLOCK_COMMENT = None if FAM == "py" else "/* c */"
     NOCL_TEXT = "# NoCL reason" if FAM == "py" else "// nocl"
+WS_LINES = ["\x0c", " \t ", "\x0b"]       # whitespace-only lines: form feed (page break), blank + tab, vertical tab
+WS_LEAD = ["   ", "\x0c  ", "\t  "]        # whitespace token in front of a comment-only line (3 characters each)
+
+
+def _wsline(k):
+    """comments mode: every second chosen boundary also gets a whitespace-only line (so its gap is >= 2)."""
+    return k % 2 == 1
 
 
 def _pre(gs, cs):
     for k, g in enumerate(gs):
         if g < 0 or (k >= len(BOUNDS) and g != 0):
             return False
-        if MODE == "comments" and k < len(BOUNDS) and g < 1:
+        if MODE == "comments" and k < len(BOUNDS) and g < (2 if _wsline(k) else 1):
             return False
     prev = 0
     for k, c in enumerate(cs):
@@ -97,7 +104,10 @@ def _tokens(gs, cs, extra_comments=False, nocl_line=None):
         ln = t.location.line
         if extra_comments and ln in BOUNDS and FIRST_COL[ln] == t.location.column:
             # a comment-only line right above this line (inside its gap, which is >= 1), preceded by an indentation whitespace token
-            out.append(Token(Location(nl[ln] - 1, 1), PT.Text.Whitespace, "   "))
+            k = BOUNDS.index(ln)
+            if _wsline(k):
+                out.append(Token(Location(nl[ln] - 2, 1), PT.Text.Whitespace, WS_LINES[k % len(WS_LINES)]))
+            out.append(Token(Location(nl[ln] - 1, 1), PT.Text.Whitespace, WS_LEAD[k % len(WS_LEAD)]))
             out.append(Token(Location(nl[ln] - 1, 4), LINE_COMMENT_T, LINE_COMMENT))
         out.append(Token(Location(nl[ln], _col(t, cs)), t.token_type, t.value))
         if extra_comments and LAST_TOK_OF_LINE[ln] is t and "\n" not in t.value and not t.value.endswith("\\"):
@@ -224,8 +234,13 @@ def _render(gs, cs, extra_comments=False, nocl_line=None):
     for j, ln in enumerate(lines, start=1):
         g = int(gaps.get(j, 0))
         if extra_comments and j in BOUNDS:
-            out.extend([""] * (g - 1))
-            out.append("   " + LINE_COMMENT)
+            k = BOUNDS.index(j)
+            if _wsline(k):
+                out.extend([""] * (g - 2))
+                out.append(WS_LINES[k % len(WS_LINES)])
+            else:
+                out.extend([""] * (g - 1))
+            out.append(WS_LEAD[k % len(WS_LEAD)] + LINE_COMMENT)
         else:
             out.extend([""] * g)
         stripped = ln.lstrip(" ")
